@@ -17,10 +17,20 @@ open Dashu.IO Dashu.Model.Cross Dashu.Driver
 
 -- ------------------------------------------------------------------ argument parsing
 
+/-- number of trailing zero bits of `n > 0` -/
+def tzBits (n : Nat) : Nat := Nat.log2 (n ^^^ (n &&& (n - 1)))
+
+partial def stripLoop (B : Nat) (s : Int) (e : Int) : Int × Int :=
+  if s % (B : Int) == 0 then stripLoop B (s / (B : Int)) (e + 1) else (s, e)
+
 /-- `Repr::<B>::normalize` for a non-zero significand: strip trailing base-`B` digits -/
-partial def stripDigits (B : Nat) (s : Int) (e : Int) : Int × Int :=
+def stripDigits (B : Nat) (s : Int) (e : Int) : Int × Int :=
   if B < 2 || s == 0 then (s, e)
-  else if s % (B : Int) == 0 then stripDigits B (s / (B : Int)) (e + 1) else (s, e)
+  else if B == 2 ^ (bitLen B - 1) then
+    let bits := bitLen B - 1
+    let shift := tzBits s.natAbs / bits
+    (s / ((2 ^ (shift * bits) : Nat) : Int), e + shift)
+  else stripLoop B s e
 
 def parsePrimInt : String → Option PrimInt
   | "u8" => some .u8 | "u16" => some .u16 | "u32" => some .u32 | "u64" => some .u64
@@ -29,14 +39,7 @@ def parsePrimInt : String → Option PrimInt
   | "i128" => some .i128 | "isize" => some .isize
   | _ => none
 
-def pow2Part (n : Nat) : Nat := Id.run do
-  -- number of trailing zero bits (n > 0)
-  let mut k := 0
-  let mut m := n
-  while m % 2 == 0 && m != 0 do
-    m := m / 2
-    k := k + 1
-  return k
+def pow2Part (n : Nat) : Nat := if n == 0 then 0 else tzBits n
 
 def parseNum (s : String) : Option Num :=
   match s.splitOn ":" with
@@ -121,12 +124,6 @@ def primSame (x y : Num) : Bool :=
   | .pfloat t1 _, .pfloat t2 _ => t1 == t2
   | _, _ => false
 
-def hashCornerDefect (x y : Num) : Option String :=
-  let c : Num → Bool
-    | .relaxed _ d => d % M127 == 0
-    | _ => false
-  if c x || c y then some "ratio-hash-M-divides-den" else none
-
 def dispatch : Dispatch := fun _W op args =>
   match op, args with
   | "numcmp", [a, b] => do
@@ -203,17 +200,31 @@ def dispatch : Dispatch := fun _W op args =>
       else pure (verdict (ordStr m) none none none)
   | "numhash", [a] => do
     let x ← parseNum a
-    pure (ok (feedStr (numHashFeed x)))
+    let m := numHashFeed x
+    let c := numHashFeedCanon x
+    if m == c then pure (ok (feedStr m))
+    else pure (ok (feedStr c) ++ " #defect=ratio-hash-M-divides-den #mirror=" ++ feedStr m)
   | "hasheq", [a, b] => do
     let x ← parseNum a; let y ← parseNum b
     let m := numHashFeed x == numHashFeed y
+    let c := numHashFeedCanon x == numHashFeedCanon y
+    let inCorner := numHashFeed x != numHashFeedCanon x || numHashFeed y != numHashFeedCanon y
     if small x y && XVal.cmp x.value y.value == some .eq then
       -- REQUIRED: equal values feed the same sequence
-      if m then pure (ok "true")
-      else match hashCornerDefect x y with
-        | some site => pure (ok "true" ++ " #defect=" ++ site ++ " #mirror=false")
-        | none => pure (ok "false" ++ " !model-spec-mismatch spec=true")
-    else pure (ok (boolStr m))
+      if !c then pure (ok "false" ++ " !model-spec-mismatch spec=true")
+      else if m then pure (ok "true")
+      else if inCorner then pure (ok "true" ++ " #defect=ratio-hash-M-divides-den #mirror=false")
+      else pure (ok "false" ++ " !model-spec-mismatch spec=true")
+    else if m == c then pure (ok (boolStr m))
+    else pure (ok (boolStr c) ++ " #defect=ratio-hash-M-divides-den #mirror=" ++ boolStr m)
+  | "log2encl", [a] => do
+    -- the enclosure hypothesis on the REAL estimator is checked by the harness; required: it holds
+    let x ← parseNum a
+    match x with
+    | .fbig _ s e _ => if fIsInf s e then none else pure (ok "enclosed")
+    | .pint _ _ => none
+    | .pfloat _ _ => none
+    | _ => pure (ok "enclosed")
   | _, _ => none
 
 end Dashu.Driver.Cross
